@@ -181,6 +181,17 @@ func Core() []*Schema {
 		Msg("MaybeNothing", MF(1, "n", N("Nothing")), MF(2, "x", P("int32"))),
 		St("Plain", F("a", P("int32")))))
 
+	// 8a-2b. records whose LAST decoding step reads nothing: a field-less struct as the last
+	// field (also of a nested struct and of a message field), and as the first one
+	out = append(out, mk("emptytail",
+		St("Marker"),
+		St("Tagged", F("name", P("string")), F("count", P("int32")), F("end", N("Marker"))),
+		St("Envelope", F("id", P("guid")), F("body", N("Tagged"))),
+		St("MarkerFirst", F("m", N("Marker")), F("x", P("int32"))),
+		St("TwoMarkers", F("a", P("uint16")), F("m", N("Marker")), F("n", N("Marker"))),
+		Msg("TaggedM", MF(1, "t", N("Tagged")), MF(2, "m", N("Marker"))),
+		Un("TaggedU", Br(1, St("TaggedUA", F("t", N("Tagged")))), Br(2, St("TaggedUB")))))
+
 	// 8a-3. maps with float keys whose values are containers (a NaN key cannot be looked up
 	// again once stored)
 	out = append(out, mk("floatkeys",
